@@ -6,6 +6,8 @@ package run
 // Lean side: lean/ShpanVerif/Model/PipeDyn.lean (model), lean/ShpanVerif/Drive/PipeDyn.lean (driver).
 //
 // case := DYN src R0 XS OPS... fm G || RUN || RUN ...
+//       | DYN srcv R0 XS1|XS2|... OPS... fm G || RUN || RUN ...    the outer source's contents CHANGE between the
+//         materialisations: run i is over XSi (the last entry repeats); the probe source reads its current contents at Open
 // OPS  := peek | map FN | filter PRED              (source side first)
 // G    := probe B M L | iter B M L | just K | empty | error | alt G G
 // RUN  := <collect|user> <all|take:N> <nofault|KIND@P>
@@ -101,6 +103,8 @@ type dynProbeSrc struct {
 	r   int
 	xs  []int64
 	idx int
+	// cur (srcv): the contents variable of the source; read when the source is opened
+	cur *[]int64
 }
 
 func (p *dynProbeSrc) Open(ctx context.Context) error {
@@ -115,6 +119,9 @@ func (p *dynProbeSrc) Open(ctx context.Context) error {
 		return err
 	}
 	p.idx = 0
+	if p.cur != nil {
+		p.xs = *p.cur
+	}
 	p.w.ev(p.r, 'O')
 	return nil
 }
@@ -254,15 +261,33 @@ func execPipeDyn(caseText string) (obs string) {
 	w := &dynWorld{}
 	w.reset()
 	pp := &pparser{toks: strings.Fields(parts[0])}
-	if pp.next() != "src" {
+	srcTok := pp.next()
+	if srcTok != "src" && srcTok != "srcv" {
 		return "bad-case"
 	}
 	r0 := pp.int()
-	xs, xerr := parseInts(pp.next())
-	if xerr != nil || pp.err != nil {
-		return "bad-case"
+	var perRun [][]int64 // srcv: contents of run 1, 2, ...
+	var contents []int64 // srcv: the contents variable the source reads at Open
+	var s stream.Stream[pv]
+	if srcTok == "src" {
+		xs, xerr := parseInts(pp.next())
+		if xerr != nil || pp.err != nil {
+			return "bad-case"
+		}
+		s = stream.NewStream[pv](&dynProbeSrc{w: w, r: r0, xs: xs})
+	} else {
+		for _, t := range strings.Split(pp.next(), "|") {
+			xs, xerr := parseInts(t)
+			if xerr != nil {
+				return "bad-case"
+			}
+			perRun = append(perRun, xs)
+		}
+		if pp.err != nil || len(perRun) == 0 {
+			return "bad-case"
+		}
+		s = stream.NewStream[pv](&dynProbeSrc{w: w, r: r0, cur: &contents})
 	}
-	s := stream.NewStream[pv](&dynProbeSrc{w: w, r: r0, xs: xs})
 ops:
 	for {
 		switch t := pp.next(); t {
@@ -304,12 +329,16 @@ ops:
 	})
 	pre := w.nEvents + w.calls
 	var outs []string
-	for _, run := range parts[1:] {
+	for ri, run := range parts[1:] {
 		f := strings.Fields(run)
 		if len(f) != 3 {
 			return "bad-case"
 		}
 		w.reset()
+		if perRun != nil {
+			// the source's contents change while the stream value is at rest
+			contents = perRun[min(ri, len(perRun)-1)]
+		}
 		if f[2] != "nofault" {
 			kind, posS, ok := strings.Cut(f[2], "@")
 			pos, err := strconv.Atoi(posS)
@@ -518,12 +547,83 @@ func genPipeDynHist(c *Ctx) {
 			}
 		}
 	}
+	// the same over a source whose contents change between the materialisations
+	genPipeDynVar(c, true, false)
+}
+
+// genPipeDynVar: histories on one stream value whose outer source CHANGES its contents between the materialisations
+// (srcv): an early-stopped / failed / cancelled / complete run, then runs over the EMPTY source and over other contents.
+// Every fault-free run must deliver the list-level meaning of ITS contents (what a fresh stream value would deliver).
+// full = false: a small selection (C01 / C04); faultFree: only fault-free endings (C04).
+func genPipeDynVar(c *Ctx, full, faultFree bool) {
+	ends := []string{"collect take:1 nofault", "collect all nofault", "user all err@2", "collect all cancel@1", "user all perr@1",
+		"collect take:2 pval@3", "user take:1 err@4", "collect take:1 cancel@3"}
+	if faultFree {
+		ends = []string{"collect take:1 nofault", "collect all nofault", "user take:2 nofault", "collect take:0 nofault"}
+	}
+	seqs := []string{"1|-", "1,2|-|2,1", "2,1,2|-|-", "1,2|3|-", "3,0,2|2|1,1", "-|1,2|-", "1|1,2,3|-", "2|-|2", "1,1|0|3,3,3"}
+	gs := dynGs
+	opss := []string{"", "peek", "filter mod:2:0", "map add:1"}
+	if !full {
+		seqs = seqs[:5]
+		gs = []string{"probe 10 3 2", "iter 10 3 2", "just 100", "alt just 5 iter 20 2 3", "alt probe 10 2 1 error"}
+		opss = opss[:2]
+	}
+	lasts := []string{"collect all nofault", "collect take:2 nofault", "user all nofault"}
+	for oi, ops := range opss {
+		for si, sq := range seqs {
+			for gi, g := range gs {
+				if oi > 0 && (si+gi+oi)%3 != 0 {
+					continue
+				}
+				o := ops
+				if o != "" {
+					o += " "
+				}
+				p := "DYN srcv 0 " + sq + " " + o + "fm " + g
+				for _, e1 := range ends {
+					for li, last := range lasts {
+						c.Case(true, strings.Join([]string{p, e1, last}, " || "))
+						if full || li == 0 {
+							c.Case(true, strings.Join([]string{p, e1, last, ends[(si+gi+li)%len(ends)], "collect all nofault"}, " || "))
+						}
+					}
+				}
+			}
+		}
+	}
+	n := c.Pick(30, 1500)
+	if !full {
+		n = c.Pick(10, 200)
+	}
+	for i := 0; i < n; i++ {
+		k := c.Rng.Range(2, 4)
+		var parts []string
+		for j := 0; j < k; j++ {
+			if c.Rng.Intn(3) == 0 {
+				parts = append(parts, "-")
+			} else {
+				parts = append(parts, dynRandXs(c.Rng))
+			}
+		}
+		o := dynRandOps(c.Rng)
+		if o != "" {
+			o += " "
+		}
+		p := "DYN srcv 0 " + strings.Join(parts, "|") + " " + o + "fm " + dynRandG(c.Rng, 3)
+		runs := []string{p}
+		for j := 0; j < k-1; j++ {
+			runs = append(runs, ends[c.Rng.Intn(len(ends))])
+		}
+		runs = append(runs, lasts[c.Rng.Intn(len(lasts))])
+		c.Case(true, strings.Join(runs, " || "))
+	}
 }
 
 // genPipeDyn: the whole DYN stream of a property with fault kinds `kinds`
 func genPipeDyn(c *Ctx, kinds []string) {
 	genPipeDynSweep(c, kinds, 150, 3000)
-	genPipeDynHist(c)
+	genPipeDynHist(c) // includes the histories over a source whose contents change (genPipeDynVar)
 }
 
 func dynRandXs(r *Rng) string {
